@@ -1,6 +1,7 @@
 package manager
 
 import (
+	"bufio"
 	"bytes"
 	"context"
 	"encoding/json"
@@ -25,7 +26,6 @@ import (
 	"github.com/fsnotify/fsnotify"
 	"github.com/gopacket/gopacket"
 	"github.com/gopacket/gopacket/layers"
-	"github.com/gopacket/gopacket/pcap"
 	"github.com/gopacket/gopacket/pcapgo"
 	"github.com/spq/pkappa2/internal/index"
 	"github.com/spq/pkappa2/internal/index/builder"
@@ -2338,38 +2338,51 @@ func (mgr *Manager) newPcapOverIPEndpoint(ctx context.Context, address string) *
 					return
 				}
 				conn := c.(*net.TCPConn)
-				file, err := conn.File()
-				if err != nil {
-					conn.Close()
-					log.Printf("Can't get file descriptor of PCAP-over-IP endpoint %q: %v\n", endpoint.Address, err)
-					return
-				}
 				ctx, innerCancel := context.WithCancel(ctx)
 				go func() {
 					<-ctx.Done()
-					// shutting down the connection makes a blocked read of the pcap handle return
+					// shutting down the connection makes a blocked read return
 					_ = conn.CloseRead()
 					_ = conn.CloseWrite()
 					conn.Close()
 				}()
 				defer innerCancel()
-				// the file is used by this goroutine only, close it here
-				defer file.Close()
-				handle, err := pcap.OpenOfflineFile(file)
+				// the stream is read with pcapgo: libpcap (pcap.OpenOfflineFile on conn.File()) closes the
+				// descriptor it is given and so does the os.File it came from, and the second close hits
+				// whatever was opened under that number in between (a capture being imported, a pipe, ...)
+				stream := bufio.NewReaderSize(conn, 65536)
+				magic, err := stream.Peek(4)
 				if err != nil {
-					log.Printf("Can't open file descriptor of PCAP-over-IP endpoint %q: %v\n", endpoint.Address, err)
+					log.Printf("Can't read from PCAP-over-IP endpoint %q: %v\n", endpoint.Address, err)
 					return
 				}
-				defer handle.Close()
-				lt := handle.LinkType()
-				sl := handle.SnapLen()
+				var (
+					readPacketData func() ([]byte, gopacket.CaptureInfo, error)
+					lt             layers.LinkType
+					sl             uint32
+				)
+				if bytes.Equal(magic, []byte{0x0a, 0x0d, 0x0d, 0x0a}) {
+					r, err := pcapgo.NewNgReader(stream, pcapgo.DefaultNgReaderOptions)
+					if err != nil {
+						log.Printf("Can't read pcapng stream of PCAP-over-IP endpoint %q: %v\n", endpoint.Address, err)
+						return
+					}
+					readPacketData, lt = r.ReadPacketData, r.LinkType()
+				} else {
+					r, err := pcapgo.NewReader(stream)
+					if err != nil {
+						log.Printf("Can't read pcap stream of PCAP-over-IP endpoint %q: %v\n", endpoint.Address, err)
+						return
+					}
+					readPacketData, lt, sl = r.ReadPacketData, r.LinkType(), r.Snaplen()
+				}
 				log.Printf("Connection to PCAP-over-IP endpoint %q established (using linkType %s and snaplen %d)\n", endpoint.Address, lt.String(), sl)
 
 				endpoint.infoMutex.Lock()
 				endpoint.LastConnected = time.Now().UnixNano()
 				endpoint.infoMutex.Unlock()
 				for {
-					data, ci, err := handle.ReadPacketData()
+					data, ci, err := readPacketData()
 					if err != nil {
 						log.Printf("Error reading packet from PCAP-over-IP endpoint %q: %v\n", endpoint.Address, err)
 						return
